@@ -3,6 +3,7 @@ package vk
 import (
 	"bufio"
 	"bytes"
+	"crypto/tls"
 	"fmt"
 	"io"
 	"net"
@@ -46,6 +47,29 @@ func DoAddr(app *fiber.App, remote net.Addr, method, uri string, body []byte, hd
 		remote = &net.TCPAddr{IP: net.IPv4(10, 0, 0, 9), Port: 1234}
 	}
 	ctx.Init(&req, remote, nil)
+	app.Handler()(ctx)
+	return ctx
+}
+
+// tlsConn is an in-memory connection that fasthttp takes for a TLS connection (RequestCtx.IsTLS looks for the two methods)
+type tlsConn struct{ *Conn }
+
+func (tlsConn) Handshake() error { return nil }
+func (tlsConn) ConnectionState() tls.ConnectionState {
+	return tls.ConnectionState{HandshakeComplete: true, Version: tls.VersionTLS13}
+}
+
+// DoTLS is DoAddr for a request that arrived on a TLS connection.
+func DoTLS(app *fiber.App, remote net.Addr, method, uri string, hdr ...string) *fasthttp.RequestCtx {
+	var req fasthttp.Request
+	req.Header.SetMethod(method)
+	setURI(&req, uri)
+	for i := 0; i+1 < len(hdr); i += 2 {
+		req.Header.Add(hdr[i], hdr[i+1])
+	}
+	ctx := &fasthttp.RequestCtx{}
+	ctx.Init2(tlsConn{&Conn{R: bytes.NewReader(nil), Remote: remote}}, nil, false)
+	req.CopyTo(&ctx.Request)
 	app.Handler()(ctx)
 	return ctx
 }
